@@ -33,6 +33,8 @@ REQUIRED = ['align_ge', 'align_lt', 'align_mod', 'layout_ordered', 'layout_align
             'choose_succ', 'header_text_fits', 'choose_mono', 'choose_mono_le', 'choose_terminates_aux', 'digits_le_of_lt_pow', 'hdrLen_ge',
             'fileEnd_lt', 'hdrLen_le', 'chooseText_terminates', 'retry_terminates_7'] + cphdwriter.REQUIRED_W
 KIND = 'CPHD'
+import crsdgen
+SUPPORT_KIND_NAMES = ['IAZ', 'IAZ'] + sorted(crsdgen.SUPPORT_KINDS_CPHD)
 K_AMPSF = 'refused-pvp-rewrite-replaces-ampsf'
 
 
@@ -47,11 +49,16 @@ def write_case(rng, meta, pvp, raw, support, target, tmpdir, plan):
     if plan.get('permute_pvp_fields'):
         pvp = cphdgen.permute_pvp_fields(rng, pvp)
     amp = {k: (v['AmpSF'] if 'AmpSF' in v.dtype.names else None) for k, v in pvp.items()}
+    # the caller's arrays may be big-endian (as the file), little-endian or native: the file must hold the VALUES
+    order = rng.choice(cphdwriter.BYTE_ORDERS)
+    raw_in = raw
+    pvp = {k: cphdwriter.reorder(v, order) for k, v in pvp.items()}
+    support = {k: cphdwriter.reorder(v, rng.choice(cphdwriter.BYTE_ORDERS)) for k, v in (support or {}).items()}
     if plan['mode'] == 'file':
         if plan['formatted']:
             w.write_file(pvp, {k: cphdgen.formatted(v, amp[k]) for k, v in raw.items()}, support or None)
         else:
-            w.write_file_raw(pvp, raw, support or None)
+            w.write_file_raw(pvp, {k: cphdwriter.reorder(v, order) for k, v in raw_in.items()}, support or None)
     else:
         for step in plan['order']:
             if step == 'pvp':
@@ -66,10 +73,11 @@ def write_case(rng, meta, pvp, raw, support, target, tmpdir, plan):
                     pieces = list(zip(edges[:-1], edges[1:]))
                     rng.shuffle(pieces)
                     for a, b in pieces:
+                        where = cphdwriter.place_kwargs(rng.choice(cphdwriter.FORMS + ['int']), a, b, not plan['formatted'], v.shape[1])
                         if plan['formatted']:
-                            w.write(cphdgen.formatted(v[a:b], None if amp[k] is None else amp[k][a:b]), start_indices=(a, 0), index=k)
+                            w.write(cphdgen.formatted(v[a:b], None if amp[k] is None else amp[k][a:b]), index=k, **where)
                         else:
-                            w.write_raw(v[a:b], start_indices=(a, 0, 0), index=k)
+                            w.write_raw(cphdwriter.reorder(v[a:b], rng.choice(cphdwriter.BYTE_ORDERS)), index=k, **where)
     w.close()
     if target == 'path':
         return open(path, 'rb').read()
@@ -108,7 +116,7 @@ def run(tier):
             sizes = [(rng.randint(1, 9) if rng.random() < 0.3 else rng.randint(4, 12), rng.randint(1, 8)) for _ in range(nch)]
             amp = rng.random() < 0.6
             nsup = rng.choice([0, 0, 1, 2, 3])
-            sup = [(rng.randint(1, 5), rng.randint(1, 6)) for _ in range(nsup)]
+            sup = [(rng.randint(1, 5), rng.randint(1, 6), rng.choice(SUPPORT_KIND_NAMES)) for _ in range(nsup)]
             text = rng.choice([None, None, 'café Ünïcode', 'x' * rng.randint(1, 70), '日本'])
             template = rng.choice(['syntax-only-cphd-1.1.0-monostatic-minimal.xml'] * 3 + ['syntax-only-cphd-1.0.1-monostatic.xml'])
             target = rng.choice(['path', 'bytesio', 'fileobj'])
@@ -207,7 +215,11 @@ def run(tier):
                     if numpy.size(rfmt[k]) != want.size or not numpy.allclose(numpy.reshape(rfmt[k], want.shape), want, rtol=1e-6, atol=0):
                         fails.append({'kind': 'data', 'msg': f'formatted signal of channel {k} differs after write/read', 'case': case})
                 for k in support:
-                    if not numpy.array_equal(numpy.asarray(rs[k]).reshape(support[k].shape), support[k]):
+                    got = numpy.asarray(rs[k])
+                    if got.shape != support[k].shape or got.dtype != support[k].dtype:
+                        fails.append({'kind': 'data', 'msg': f'support array {k} ({meta.SupportArray.find_support_array(k).ElementFormat}) reads back with shape {got.shape} dtype '
+                                                             f'{got.dtype}, the element format gives {support[k].shape} {support[k].dtype}', 'case': case})
+                    elif not numpy.array_equal(got, support[k]):
                         fails.append({'kind': 'data', 'msg': f'support array {k} differs after write/read', 'case': case})
                 m = meta_diff(meta.to_dict(), rdr.cphd_meta.to_dict())
                 if m:
